@@ -106,3 +106,12 @@ func verifSymBytes(name string, b []byte) {
 		b[k] = uint8(verifValue(fmt.Sprintf("%s[%d]", name, k)))
 	}
 }
+
+func verifParam(name string, def int) int {
+	verifState.mu.Lock()
+	defer verifState.mu.Unlock()
+	if v, ok := verifState.model["__param:"+name]; ok {
+		return int(v)
+	}
+	return def
+}
